@@ -10,6 +10,7 @@ import (
 	"sort"
 	"strings"
 
+	"github.com/hknutzen/Netspoc-Approve/go/pkg/errlog"
 	"github.com/pkg/diff/myers"
 )
 
@@ -314,6 +315,10 @@ func (ab *rulesPair) equalizeGroups(ra, rb *nsxRule) []change {
 			return
 		}
 		gb := getGroup(lb[0], ab.b.groups)
+		if gb == nil {
+			errlog.Abort("Rule %s references group %s not defined in Netspoc config",
+				rb.Id, lb[0])
+		}
 		// No need to change name of group in rule from ga to gb
 		// if gb is known to have values of ga.
 		if gb.nameOnDevice == ga.Id {
